@@ -189,6 +189,19 @@ pub fn run<C: Ciphersuite, L: Lab<C>>(lab: &mut L, p: &Params) {
         }
         lab.eq_e(g::<C>() * s, acc, "repaired share = the group polynomial evaluated at the participant's identifier (G * share = sum_k phi_k * id^k)");
     }
+    // a public key package that records no threshold (pre-3.0 form): the repaired key package must not
+    // come out with a threshold below t (either the call refuses, or the threshold is carried over)
+    {
+        let nomin = fc::keys::PublicKeyPackage::<C>::new(keys.1.verifying_shares().clone(), *keys.1.verifying_key(), None);
+        match repair_share_part3(&sigmas, target, &nomin) {
+            Err(_) => {
+                lab.check(true, "repair with a public key package that records no threshold is refused");
+            }
+            Ok(kp2) => {
+                lab.check(*kp2.min_signers() >= p.t, "a repaired key package never records a threshold below t");
+            }
+        }
+    }
     if existing {
         lab.eq_s(s, keys.0[&target].signing_share().to_scalar(), "repaired share = the share that was lost");
         lab.eq_e(kp.verifying_share().to_element(), keys.1.verifying_shares()[&target].to_element(), "repaired verifying share = public key package entry");
